@@ -271,6 +271,12 @@ func (r *FeatureLocal) SetWriteApprovalTimeout(duration time.Duration) {
 }
 
 func (r *FeatureLocal) CleanWriteApprovalCaches(ski string) {
+	// the received approvals are guarded by their own mutex, the locks are
+	// taken one after the other as ApproveOrDenyWrite nests them
+	r.muxWriteReceived.Lock()
+	delete(r.writeApprovalReceived, ski)
+	r.muxWriteReceived.Unlock()
+
 	r.muxResponseCB.Lock()
 	defer r.muxResponseCB.Unlock()
 
@@ -279,7 +285,6 @@ func (r *FeatureLocal) CleanWriteApprovalCaches(ski string) {
 		timer.Stop()
 	}
 	delete(r.pendingWriteApprovals, ski)
-	delete(r.writeApprovalReceived, ski)
 }
 
 // Remove subscriptions and bindings from local cache for a remote device
